@@ -9,7 +9,7 @@ _V = os.path.dirname(os.path.abspath(__file__))
 ALL_IDS = ["C%02d" % i for i in range(1, 21)]
 
 # hook commits in /repo (guard CMI_VERIF), oldest first
-HOOK_COMMITS = ['ac6a788', 'c146231', '4f0f9ee', '9f84eca', '2c4c768', '1c56e61', '2a1ddb7', '30de8a2', 'd0cb990', 'e57e595', 'f8d8995', '2b71dbb', '629d262', '4a4f97f', 'e442337', '47279f2']
+HOOK_COMMITS = ['ac6a788', 'c146231', '4f0f9ee', '9f84eca', '2c4c768', '1c56e61', '2a1ddb7', '30de8a2', 'd0cb990', 'e57e595', 'f8d8995', '2b71dbb', '629d262', '4a4f97f', 'e442337', '47279f2', 'cb03a74']
 
 ENGINES = [
     {"name": "E1", "path": "/verif/engine/e1", "serves_properties": ["C01", "C07", "C08", "C04", "C10"],
